@@ -643,6 +643,8 @@ func (d *Driver) Apply(o *Op) (resp Resp) {
 		req := &btapb.DropRowRangeRequest{Name: o.Table}
 		if o.All {
 			req.Target = &btapb.DropRowRangeRequest_DeleteAllDataFromTable{DeleteAllDataFromTable: true}
+		} else if o.AllFalse {
+			req.Target = &btapb.DropRowRangeRequest_DeleteAllDataFromTable{DeleteAllDataFromTable: false}
 		} else {
 			req.Target = &btapb.DropRowRangeRequest_RowKeyPrefix{RowKeyPrefix: o.Prefix}
 		}
